@@ -141,6 +141,18 @@ impl<C: Cfg> World<C> {
                     return;
                 }
                 self.class("grows");
+                // astronomically large requests may legitimately fail (allocation failure / the
+                // amortised target max(2 x capacity, len + n) overflowing): a panic is accepted there
+                let astronomical = need.max(cap0.saturating_mul(2)).saturating_mul(size.max(1)) > (1usize << 40);
+                if astronomical {
+                    self.class("astronomical-request");
+                    if r.is_err() {
+                        if cap1 != cap0 {
+                            self.fail(MON_CAP, format!("{}:cap-changed-on-refusal", name), format!("{} refused but capacity changed {} -> {}", name, cap0, cap1));
+                        }
+                        return;
+                    }
+                }
                 self.expect_panic_m(MON_CAP | MON_MODEL, name, &r, false, "");
                 if self.dead() {
                     return;
